@@ -168,6 +168,8 @@ def run_random(spec, res):
             spreads = [float((base + u) / np.sqrt(2.0)) for u in rng.uniform(0.05, 0.95, size=K)]
         # no NaN spreads: a NaN computed covariance has no place in an ordering (sorted() with NaN keys is
         # arbitrary), so "decreasing covariance spread" is undefined for it - outside the quantifier.
+        if i % 5 == 2:
+            spreads = [v * 1e-7 for v in spreads]         # data in very small units: spreads of order 1e-7 are still strictly ordered
         case = dict(what="random", sizes=sizes, m=m, spreads=spreads, pyseed=int(rng.integers(0, 20)),
                     arr=[int(v) for v in spec["seed"]] + [i], repeat=3)
         run_case(res, cm, case)
